@@ -396,6 +396,29 @@ func lookupExternal(name string) (extFn, bool) {
 	if f, ok := externals[name]; ok {
 		return f, true
 	}
+	if strings.HasPrefix(name, "slices.overlaps[") {
+		return func(p *Path, fr *Frame, fn *ssa.Function, a []Value) Value {
+			switch x := a[0].(type) {
+			case GSlice:
+				y := a[1].(GSlice)
+				if x.arr == nil || y.arr == nil || x.arr != y.arr || x.n == 0 || y.n == 0 {
+					return p.tt.False()
+				}
+				return p.tt.BoolC(x.off < y.off+y.n && y.off < x.off+x.n)
+			case BSlice:
+				y := a[1].(BSlice)
+				if x.arr == nil || y.arr == nil || x.arr != y.arr {
+					return p.tt.False()
+				}
+				tt := p.tt
+				ov := tt.And(tt.Cmp(OUlt, x.off, tt.Bin(OAdd, y.off, y.n)), tt.Cmp(OUlt, y.off, tt.Bin(OAdd, x.off, x.n)))
+				ov = tt.And(ov, tt.And(tt.Not(tt.Eq(x.n, tt.U64(0))), tt.Not(tt.Eq(y.n, tt.U64(0)))))
+				return ov
+			}
+			p.unsupported("slices.overlaps on %T", a[0])
+			return nil
+		}, true
+	}
 	if strings.HasPrefix(name, "(*sync/atomic.Pointer[") {
 		i := strings.LastIndex(name, ").")
 		m := name[i+2:]
